@@ -8,9 +8,6 @@
 (define-fun-rec jidx ((J Slice<seccomp.JumpIf>) (x Int) (k Int)) Int
   (ite (or (< k 0) (>= k (Slice<seccomp.JumpIf>.len J))) (Slice<seccomp.JumpIf>.len J)
   (ite (= (seccomp.JumpIf.index (select (Slice<seccomp.JumpIf>.arr J) k)) x) k (jidx J x (+ k 1)))))
-; positions of a label (Go map semantics: an absent key reads as the empty slice)
-(define-fun labelPos ((L Map<Int~Slice<Int>>) (l Int)) Slice<Int>
-  (ite (select (Map<Int~Slice<Int>>.has L) l) (select (Map<Int~Slice<Int>>.val L) l) (mk.Slice<Int> ((as const (Array Int Int)) 0) 0 true)))
 ; first position of label l behind instruction x, or -1
 (define-fun destOf ((L Map<Int~Slice<Int>>) (l Int) (x Int)) Int
   (let ((s (labelPos L l)))
